@@ -202,7 +202,7 @@ theorem sections_with_parts (l : Loc) (hwf : geneWF l = true) (ld tl : Nat) (h :
   have hpos := len_nonneg l hwf
   generalize hT : (l.len / 3).toNat = T
   have hTi : l.len / 3 = (T : Int) := by omega
-  obtain ⟨a, c, b, hsec, ha0, hb0, hab, hcb, hbb⟩ := prepeptide_sections l hwf ld tl h
+  obtain ⟨a, c, b, hsec, ha0, hb0, hab, hcb, hbb, _⟩ := prepeptide_sections l hwf ld tl h
   rw [hT] at hcb hbb
   refine ⟨a, c, b, hsec, ?_, ?_⟩
   · rw [hab, hcb, hbb, sliceL_append _ _ _ _ (by omega) (by omega), sliceL_append _ _ _ _ (by omega) (by omega),
